@@ -92,6 +92,7 @@ func loadRepo(dir string, overlay map[string][]byte) (*Ctx, error) {
 	curLayout = computeLayoutAliases(c)
 	computeFuncAliases(c, curLayout)
 	curCtx = c
+	paramCellMemo = map[*ssa.Parameter]*ssa.Alloc{}
 	// Enumerate functions: package members, methods of every named type (AllFunctions misses methods of
 	// generic types that nothing references), closures recursively.
 	var rels []string
@@ -150,6 +151,7 @@ func loadRepo(dir string, overlay map[string][]byte) (*Ctx, error) {
 		}
 	}
 	curCtx = c
+	paramCellMemo = map[*ssa.Parameter]*ssa.Alloc{}
 	return c, nil
 }
 
